@@ -90,6 +90,19 @@ def rnd_str(rng, lo, hi, odd=0.3, nul_end_ok=False) -> str:
     return s
 
 
+# declared versions of old-layout files.  *_OK: of that generation as compare_version sees it (fewer / more components than
+# "0.6.0", leading zeros, non-numeric components beyond the third: never parsed).  V_REJECT: older than 0.6.0 or not
+# comparable with it (a non-numeric component among the compared ones) -> ValueError.  *_OFF: comparable, but of another
+# generation than the layout of the file (members missing -> KeyError; outside the property, compared with the model only)
+V06_OK = ["0.6.0", "0.6.7", "0.6.12", "0.6", "0.6.0.1", "0.06.3", "0.6.0.x", "0.6.3.dev1", "0.6.1.2.3", "0.6.9.rc.1", "00.6"]
+V07_OK = ["0.7.0", "0.7.3", "0.7.10", "0.7", "0.7.0.9", "0.7.0.x", "0.7.3.dev1", "0.7.1.2.3", "0.07.0"]
+V_REJECT = ["0.5.9", "0.5.12", "0.5", "0.5.x", "0.5.9.x", "0.x", "0.6.x", "0.7.x", "0.6.0rc1", "0.7rc", "x", "0.6.", ".6.0", "",
+            "0..1", "0.5.99.1", "v0.6.0", "0.6.1b"]
+V06_OFF = ["0", "1.x", "0.7.0", "0.8.0", "1", "0.10"]
+V07_OFF = ["0", "0.6.5", "0.8.1", "1.x", "2"]
+CLASS_NAMES = ["Raster", "Laser", "Spot", "SRR", "SRRLaser", "Other", "", "raster", "Raster "]
+
+
 # ----------------------------------------------------------------------------- building the real objects
 
 
@@ -273,18 +286,27 @@ class C01(Prop):
             "| ...; a name continuing another element's name past the separator, names sharing the text before it; 25% of "
             "names, in every stream incl. the 0.6/0.7 files); info dicts incl. empty "
             "keys/values and keys colliding after tab replacement, inexact config floats, warm-up, sub-pixel offsets; "
-            "real npz.save -> npz.load chains of length 1-4 and harness-written 0.6/0.7 layout files; only the loaded object "
-            "is observed. non-trivial = every case (each has >=1 named feature); distinct by canonical case hash")
+            "real npz.save -> npz.load chains of length 1-4 and harness-written 0.6/0.7 layout files (current or legacy class "
+            "names; declared versions with fewer / more components than 0.6.0, non-numeric tails beyond the compared "
+            "components, non-numeric compared components, older than 0.6.0); only the loaded object is observed. "
+            "Compared with the model only (outside the quantifier, hyp=false): lasers without elements (save raises), files "
+            "saved by npz.save whose header class name was replaced by another class / an unknown one (Config.from_array "
+            "of an SRR array, SRRConfig.from_array of a raster array, ...), old-layout files declaring a version of another "
+            "generation. non-trivial = every case (each has >=1 named feature); distinct by canonical case hash")
     trusted = [
         "np.savez_compressed/np.load round-trip arrays bit-exactly; NumPy U storage strips trailing NULs and truncates to the field width",
         "harness/gen_npz.py writes the 0.6 / 0.7 layouts as the fixtures in tests/data/npz show them",
-        "SRR warm-up: float evaluation of round((n*scantime)/scantime) is within the perturbation of theorem srr_warmup_robust; the driver evaluates it exactly",
+        "SRR warm-up: the float evaluation of round((n*scantime)/scantime) is one instance of the rounding function `fl` of theorem config_roundtrip (hypothesis hfl: each operation within relative error 2^-53; helper lemma warmup_robust in PewProofs/Npz.lean); the driver evaluates the exact instance fl = id",
         "the abstract description of the laser handed to save is read from the real object (dict orders, SRRConfig._warmup/_subpixel_size/_subpixel_offsets)",
     ]
     assumptions = [
-        "outside the quantifier (never generated in the main stream; counted as undetermined when they appear in targeted cases): "
+        "outside the quantifier (hyp=false: no specification, the implementation is compared with the model only): "
         "point rows that are NaN in x, y and weight; rsq/error equal to NaN; units / weighting names longer than 32 code points; "
-        "custom weight name equal to a built-in name; file stems containing tabs",
+        "file stems containing tabs; lasers without elements; class name and config member of a file disagreeing; "
+        "version strings: only decimal ASCII components and clearly non-numeric ones are generated (Python's int() also "
+        "accepts signs, blanks, underscores and non-ASCII digits, the model's parseNat does not)",
+        "counted as undetermined (the model answers `Unmodelled`): SRRConfig.from_array of a spot array or of a raster "
+        "array whose scan time is zero / not finite",
         "info and calibration dicts are compared as mappings (sorted by key): Python dict equality ignores order",
         "every generation of a chain is written to the same path (File Path is the path loaded from)",
     ]
@@ -496,14 +518,20 @@ class C01(Prop):
             return {"kind": "roundtrip", "cls": "srr", "shapes": [[1, 1], [1, 1]],
                     "elements": [{"name": "A", "dtype": "<f8", "bits": [[t(1.5)], [t(2.5)]]}], "cals": [], "config": cfg,
                     "info": [], "stem": "laser", "chain": rng.choice([1, 2, 3])}
-        kind = "layouts" if rng.random() < 0.3 else "roundtrip"
+        r = rng.random()
+        kind = "layouts" if r < 0.3 else "crossclass" if r < 0.4 else "roundtrip"
         case = {"kind": kind, **self.gen_laser(rng, old_layout=(kind == "layouts"), empty_cals=rng.random() < 0.15)}
         case["stem"] = rng.choice(["laser", "a b", "x.y", "é中", "1"])
-        if kind == "roundtrip":
+        if kind != "crossclass" and rng.random() < 0.02:  # a laser without elements: save raises, the old layouts load
+            case["elements"], case["cals"] = [], []
+        if kind == "crossclass":
+            # the header of the saved file names another class (or an unknown one) than the config member is of
+            case["as_cls"] = rng.choice(CLASS_NAMES)
+        elif kind == "roundtrip":
             case["chain"] = rng.choice([1, 1, 2, 2, 3, 4])
         else:
-            case["v06"] = rng.choice(["0.6.0", "0.6.7", "0.6.12", "0.6", "0.6.0.1", "0.06.3"])
-            case["v07"] = rng.choice(["0.7.0", "0.7.3", "0.7.10", "0.7", "0.7.0.9"])
+            case["v06"] = rng.choice(V06_OK if rng.random() < 0.7 else V_REJECT + V06_OFF)
+            case["v07"] = rng.choice(V07_OK if rng.random() < 0.7 else V_REJECT + V07_OFF)
             case["legacy_class"] = rng.random() < 0.4
         return case
 
@@ -575,6 +603,28 @@ class C01(Prop):
             yield {**base, "elements": els, "cals": cs, "chain": 2}
             yield {**lay, "elements": els, "cals": cs}
             yield {**lay, "elements": els, "cals": cs[:1], "v06": "0.6.7", "v07": "0.7.3"}
+        # declared versions: every accepted / rejected / off-generation string once
+        for v in V06_OK + V_REJECT + V06_OFF:
+            yield {**lay, "v06": v}
+        for v in V07_OK + V_REJECT + V07_OFF:
+            yield {**lay, "v07": v, "legacy_class": True}
+        # no elements: save raises ValueError (max() of an empty sequence), files of the old layouts load
+        yield {**base, "elements": []}
+        yield {**base, "elements": [], "chain": 2, "info": [["k", "v"]]}
+        yield {**base, "cls": "srr", "shapes": [[1, 1], [1, 1]], "elements": [], "config": srr}
+        yield {**lay, "elements": [], "cals": []}
+        # class name of the header and config member disagree (malformed file; compared with the model only)
+        spot = {"class": "spot", "spotsize": t(10.0), "spotsize_y": t(20.0)}
+        two = {**base, "kind": "crossclass", "shapes": [[2, 3]], "elements": [el("A", bits=[[t(float(i)) for i in range(6)]])]}
+        srr2 = {**base, "kind": "crossclass", "cls": "srr", "shapes": [[1, 2], [1, 2]], "elements": [el("A", bits=[[1, 2], [3, 4]])],
+                "config": {**srr, "warmup": t(1.3)}}
+        for c in CLASS_NAMES:
+            yield {**two, "as_cls": c}
+            yield {**two, "cls": "spot", "config": spot, "as_cls": c}
+            yield {**srr2, "as_cls": c}
+        yield {**two, "shapes": [[1, 3]], "elements": [el("A", bits=[[1, 2, 3]])], "as_cls": "SRR"}   # one row: SRRLaser asserts
+        yield {**two, "config": {**raster, "scantime": t(0.1)}, "as_cls": "SRR"}                       # 12.5 / 0.1 in floats
+        yield {**two, "config": {**raster, "scantime": t(0.0)}, "as_cls": "SRR", "excluded": "unmodelled"}
         # known findings (targeted only)
         yield {**base, "cls": "srr", "shapes": [[1, 2], [2, 1]], "elements": [{"name": "A", "dtype": "<f8", "bits": [[1, 2], [3, 4]]}],
                "config": srr, "expect_known": "C01-srr-unequal-layers-unsaveable"}
@@ -691,9 +741,20 @@ class C01(Prop):
             if len({d for _, d in cfg["offsets"]}) > 1:
                 f.add("srr:mixed-denominators")
             f.add(f"srr:layers={len(case['shapes'])}")
+        if not case["elements"]:
+            f.add("elements:none")
         if case["kind"] == "roundtrip":
             f.add(f"chain:{case['chain']}")
+        elif case["kind"] == "crossclass":
+            f.add(f"crossclass:{cfg['class']}->{case['as_cls']!r}")
         else:
+            for k, ok, off in (("v06", V06_OK, V06_OFF), ("v07", V07_OK, V07_OFF)):
+                v = case[k]
+                f.add(f"{k}-class:" + ("generation" if v in ok else "rejected" if v in V_REJECT else "other-generation" if v in off else "other"))
+                if v.count(".") != 2:
+                    f.add(f"{k}:components!=3")
+                if v in ok and any(not c.isdigit() for c in v.split(".")):
+                    f.add(f"{k}:non-numeric-tail")
             f.add("v06:" + case["v06"])
             f.add("v07:" + case["v07"])
             if case["legacy_class"]:
@@ -724,6 +785,22 @@ class C01(Prop):
             impl = observe(run, obj)
             rep = ctx.driver.call("c01.roundtrip", laser=desc, path=pinfo, version=ver, time=cps("0.0"), chain=case["chain"])
             model, spec = canon_reply(rep["model"]), canon_reply(rep["spec"])
+        elif case["kind"] == "crossclass":
+            def run_cross():
+                npz.save(path, obj)
+                gen_npz.rewrite_header_class(path, case["as_cls"])
+                return npz.load(path)
+
+            rep = ctx.driver.call("c01.crossclass", laser=desc, path=pinfo, version=ver, time=cps("0.0"), cls=cps(case["as_cls"]))
+            model = canon_reply(rep["model"])
+            if model.get("raises") == "Unmodelled":  # the loaded object has no description in the model's terms
+                return outcome(None, model, None, spec_ok=True, model_ok=True, hyp=False, undetermined=True,
+                               features={"excluded:unmodelled"})
+            impl = strip_msg(observe(run_cross, obj))
+            for side in (impl, model):   # the container type legitimately changes with the class
+                if "ok" in side:
+                    side["ok"].pop("same_container", None)
+            return outcome(impl, model, None, spec_ok=True, hyp=False, features=feats)
         else:
             def run_old(layout, version):
                 def f():
@@ -738,7 +815,7 @@ class C01(Prop):
             impl = {"v06": observe(run_old("0.6", case["v06"]), obj), "v07": observe(run_old("0.7", case["v07"]), obj),
                     "v08": observe(run_new, obj)}
             rep = ctx.driver.call("c01.layouts", laser=desc, path=pinfo, version=ver, time=cps("0.0"),
-                                  v06=cps(case["v06"]), v07=cps(case["v07"]))
+                                  v06=cps(case["v06"]), v07=cps(case["v07"]), legacy_class=bool(case["legacy_class"]))
             model = {k: canon_reply(v) for k, v in rep["model"].items()}
             spec = {k: canon_reply(v) for k, v in rep["spec"].items()}
         note = ""
@@ -750,8 +827,10 @@ class C01(Prop):
             hyp = False
         excluded = (not hyp) and not case.get("expect_known")
         if excluded:
-            feats = {"excluded:" + str(case.get("excluded", "hypothesis"))}
-        return outcome(impl_c, model, spec, hyp=hyp, undetermined=excluded, features=feats, note=note)
+            # outside the theorems' hypotheses: no specification; the implementation is still compared with the model
+            feats = set(feats) | {"excluded:" + str(case.get("excluded", "hypothesis"))}
+            return outcome(impl_c, model, None, spec_ok=True, hyp=False, features=feats, note=note)
+        return outcome(impl_c, model, spec, hyp=hyp, features=feats, note=note)
 
     # ------------------------------------------------------------------ known findings
     def known(self, case, out):
